@@ -41,41 +41,79 @@ fn run_hist_mode(spec: &'static Spec, ops: &[Op], scribble: bool, keep_alive: bo
     Ok(rig)
 }
 
-/// retention monitor (native runs): after every call, no machine word of the driver object may be an
-/// address inside a buffer lent by an earlier call (all lent buffers are kept allocated, so their
-/// address ranges are disjoint and stay valid). Returns (lender op, current op, detail).
-fn scan_retention(spec: &'static Spec, ops: &[Op], mut rep: Option<&mut Report>) -> Result<Option<(String, String, String)>, String> {
+/// One run of the retention scan: buffers are carved from a private arena (shifted by `shift` bytes), the
+/// driver object's words are read before and after every call, and a word that *changed during a call* to an
+/// address inside a buffer lent so far is a candidate: (op index, word index, buffer index, offset in buffer).
+fn scan_run(spec: &'static Spec, ops: &[Op], shift: usize, words_scanned: &mut u64) -> Result<Vec<(usize, usize, usize, usize)>, String> {
     let mut rig = match Rig::new(spec, |_| {}, None, false) {
         Ok(r) => r,
         Err((o, _)) => return Err(o.short()),
     };
-    // buffer index -> op that lent it
-    let mut lender: Vec<usize> = Vec::new();
+    let need: usize = ops.iter().map(|o| o.img.len() + o.img2.len() + 256).sum::<usize>() + 2 * Arena::GUARD + shift;
+    rig.bufs.arena = Some(Arena::new(need, shift));
+    let mut cands = Vec::new();
     for (i, o) in ops.iter().enumerate() {
+        let before = rig.panel.raw_words();
         let out = rig.apply(o);
         if !out.is_ok() {
             return Err(format!("{} -> {}", o.short(), out.short()));
         }
-        while lender.len() < rig.bufs.kept.len() {
-            lender.push(i);
-        }
-        let words = rig.panel.raw_words();
-        if let Some(rep) = rep.as_deref_mut() {
-            rep.count("driver_words_scanned", words.len() as u64);
-        }
-        for (bi, buf) in rig.bufs.kept.iter().enumerate() {
-            if buf.is_empty() {
+        let after = rig.panel.raw_words();
+        *words_scanned += after.len() as u64;
+        let arena = rig.bufs.arena.as_ref().unwrap();
+        for (wi, w) in after.iter().enumerate() {
+            if before.get(wi) == Some(w) {
                 continue;
             }
-            let lo = buf.as_ptr() as usize;
-            let hi = lo + buf.len();
-            if let Some(w) = words.iter().find(|w| **w >= lo && **w < hi) {
-                let l = &ops[lender[bi]];
-                return Ok(Some((l.k.name().to_string(), o.k.name().to_string(), format!("after call #{} ({}) returned, the driver object holds the address {:#x}, which lies inside the {}-byte buffer lent to call #{} ({}) at offset {}", i + 1, o.short(), w, buf.len(), lender[bi] + 1, l.short(), w - lo))));
+            for bi in 0..arena.lent.len() {
+                let (lo, hi) = arena.range(bi);
+                if *w >= lo && *w < hi {
+                    cands.push((i, wi, bi, *w - lo));
+                }
             }
         }
     }
-    Ok(None)
+    Ok(cands)
+}
+
+/// retention monitor (native runs). A candidate is reported only when a second run of the same history with
+/// all buffers at other addresses shows the same word of the driver object changing in the same call to the
+/// same offset of the same buffer - stale bytes in padding or recycled memory cannot do that.
+/// Returns (lender op name, detail).
+fn scan_retention(spec: &'static Spec, ops: &[Op], mut rep: Option<&mut Report>) -> Result<Option<(String, String)>, String> {
+    let mut n = 0u64;
+    let first = scan_run(spec, ops, 0, &mut n)?;
+    if let Some(rep) = rep.as_deref_mut() {
+        rep.count("driver_words_scanned", n);
+    }
+    if first.is_empty() {
+        return Ok(None);
+    }
+    let second = scan_run(spec, ops, 8192 + 192, &mut n)?;
+    let confirmed: Vec<&(usize, usize, usize, usize)> = first.iter().filter(|c| second.contains(c)).collect();
+    if let Some(rep) = rep.as_deref_mut() {
+        rep.count("retention_candidates", first.len() as u64);
+        rep.count("retention_candidates_not_reproduced", (first.len() - confirmed.len()) as u64);
+    }
+    let Some((oi, wi, bi, off)) = confirmed.first().copied().copied() else {
+        return Ok(None);
+    };
+    // which op lent buffer `bi`: buffers are lent in op order, two per op at most
+    let mut k = 0usize;
+    let mut lender = oi;
+    for (i, o) in ops.iter().enumerate() {
+        let nb = (o.img != Img::None) as usize + (o.img2 != Img::None) as usize;
+        if bi < k + nb {
+            lender = i;
+            break;
+        }
+        k += nb;
+    }
+    let l = &ops[lender];
+    Ok(Some((
+        l.k.name().to_string(),
+        format!("during call #{} ({}) word {} of the driver object became an address inside the buffer lent to call #{} ({}), offset {}; reproduced with all buffers at other addresses", oi + 1, ops[oi].short(), wi, lender + 1, l.short(), off),
+    )))
 }
 
 /// Some(first differing transfer description) when the two traces differ
@@ -258,7 +296,7 @@ pub fn run(ctx: &Ctx) -> Report {
         let syms = syms12(spec);
         let ops = flatten(&syms, &c.h);
         rep.eval(spec.name);
-        if let Ok(Some((lender, _cur, detail))) = scan_retention(spec, &ops, Some(rep)) {
+        if let Ok(Some((lender, detail))) = scan_retention(spec, &ops, Some(rep)) {
             rep.fail(Failure {
                 panel: spec.name.into(),
                 entry: lender,
